@@ -8,8 +8,7 @@ tlbparsers_tx.py and only adds:
   calls       a class already regenerated AND proved by an earlier part is called there: `Src.<Class>` (Generated/TlbParsers.lean) /
               `SrcTx.<Class>` (Generated/TlbParsersTx.lean); `Transaction` is called with the budget of the spec's `transaction` (3)
   reads       S.load_dict(N, value_deserializer=T.deserialize)      -> Rd.loadDict N (T false) S         (T a translated class)
-              S.load_hashmap(N, value_deserializer=T.deserialize)   -> Rd.loadHashmap N (T false) S      (inline `Hashmap N X`)
-              S.load_dict(N)                                        -> Rd.loadDictRaw N S                 (leaves = the rest of the leaf)
+              S.load_hashmap(N, value_deserializer=T.deserialize)   -> Rd.loadHashmap N (T false) sp S   (inline `Hashmap N X`)
   erased      the keyword argument `cell=` of `ShardAccount(…)` (a copy of the slice being parsed: bookkeeping, no schema field) is
               evaluated but not made part of the returned object (declared interface, as for `Transaction(cell=…)`).
 
@@ -42,6 +41,7 @@ BASE = {
 CLASSES = [
     ('block', 'DepthBalanceInfo'), ('block', 'ValueFlow'), ('block', 'ShardDescr'),
     ('account', 'AccountStorage'), ('account', 'Account'), ('account', 'ShardAccount'),
+    ('config', 'ValidatorSet'),
 ]
 
 ERASED_KW = {('ShardAccount', 'cell')}
@@ -80,14 +80,13 @@ class FnBlk(TX.FnTx):
                 raise Untranslatable(f'{f.attr}(N, …) expected')
             n = const_int(e.args[0], env)
             t = ctx.fresh()
-            if not e.keywords and f.attr == 'load_dict':
-                out.append(f'let ({t}, {s.var}) ← Rd.loadDictRaw {n} {s.var}')
-                return V(t, 'dict')
             if len(e.keywords) != 1 or e.keywords[0].arg != 'value_deserializer':
                 raise Untranslatable(f'{f.attr}(N, value_deserializer=…) expected')
             rd = self.value_reader(e.keywords[0].value, env)
-            prim = 'Rd.loadDict' if f.attr == 'load_dict' else 'Rd.loadHashmap'
-            out.append(f'let ({t}, {s.var}) ← {prim} {n} {rd} {s.var}')
+            if f.attr == 'load_dict':
+                out.append(f'let ({t}, {s.var}) ← Rd.loadDict {n} {rd} {s.var}')
+            else:
+                out.append(f'let ({t}, {s.var}) ← Rd.loadHashmap {n} {rd} {s.sp} {s.var}')
             return V(t, 'dict')
         return super().call(e, env, out)
 
@@ -125,8 +124,8 @@ class TranslatorBlk(TX.TranslatorTx):
 
 HEADER = '''/- GENERATED from pytoniq_core/tlb/account.py, tlb/block.py, tlb/config.py (the `deserialize` classmethods) by
    harness/translate/tlbparsers_blk.py; do not edit.  One reader per class; `none` = the parser raises.
-   Meaning of the primitives: TonVerif/Model/TlbRd.lean, TonVerif/Model/TlbRdTx.lean. -/
-import TonVerif.Model.TlbRdTx
+   Meaning of the primitives: TonVerif/Model/TlbRd.lean, TlbRdTx.lean, TlbRdBlk.lean. -/
+import TonVerif.Model.TlbRdBlk
 import TonVerif.Generated.TlbParsersTx
 set_option linter.unusedVariables false
 namespace TonVerif.Tlb.SrcBlk
